@@ -6,6 +6,7 @@ package c10
 
 import (
 	"fmt"
+	"strings"
 	"testing"
 
 	"github.com/cockroachdb/errors"
@@ -25,12 +26,32 @@ func draw(t *rapid.T) *pbt.Case {
 		maxB = 24
 	}
 	c := &pbt.Case{}
-	c.Spec = gen.Draw(t, gen.Regular(), rapid.IntRange(1, maxB).Draw(t, "budget"))
+	c.Spec = gen.Default(gen.Regular()).With("netopsrc").Draw(t, rapid.IntRange(1, maxB).Draw(t, "budget"))
 	if rapid.IntRange(0, 7).Draw(t, "twin") == 0 {
 		// a secondary error that is a separately created, equal twin of the main error
 		c.Spec = &gen.Spec{K: rapid.SampledFrom([]string{"combine", "secondary"}).Draw(t, "sec"), C: c.Spec, X: []*gen.Spec{c.Spec.Clone()}}
 	}
 	return c
+}
+
+// sigF21 is the failure class of known finding F21: the library
+// prints a net.OpError that has both Source and Addr as "src -> addr"
+// where the error's own Error() has "src->addr", so any library
+// wrapper around it changes the text.
+const sigF21 = "Error() of a wrapper differs from the wrapped net.OpError (Source and Addr set) by ' -> ' for '->' only"
+
+// arrowOnly tells whether got differs from want only by that spacing,
+// at the addresses of the net.OpError nodes of the tree.
+func arrowOnly(spec *gen.Spec, got, want string) bool {
+	if got == want {
+		return false
+	}
+	for _, n := range spec.Nodes() {
+		if n.K == "netopsrc" {
+			got = strings.ReplaceAll(got, n.S[2]+" -> "+n.S[3], n.S[2]+"->"+n.S[3])
+		}
+	}
+	return got == want
 }
 
 func check(c *pbt.Case, r *pbt.R) {
@@ -47,7 +68,9 @@ func check(c *pbt.Case, r *pbt.R) {
 		if got := fmt.Sprintf("%T", v.Obj); got != l.Typ {
 			r.Failf("a constructor builds another layer type than documented", "layer %d of %s: got %s, model %s\nspec %s", v.I, v.Ls[0].Spec.K, got, l.Typ, c.Spec)
 		}
-		if got, want := v.Obj.Error(), v.Text(); got != want {
+		if got, want := v.Obj.Error(), v.Text(); arrowOnly(c.Spec, got, want) {
+			r.Failf(sigF21, "layer %d (%s, kind %s)\n got %q\nwant %q\nspec %s", v.I, l.Typ, l.Spec.K, got, want, c.Spec)
+		} else if got != want {
 			r.Failf("Error() differs from the compositional model: "+roleName(l.Role)+" layer "+l.Typ, "layer %d (%s, kind %s)\n got %q\nwant %q\nspec %s", v.I, l.Typ, l.Spec.K, got, want, c.Spec)
 		}
 		if l.Role != gen.Transparent {
@@ -86,7 +109,9 @@ func check(c *pbt.Case, r *pbt.R) {
 				annotationOnly = false
 			}
 		}
-		if annotationOnly && w.Error() != inner.Error() {
+		if annotationOnly && arrowOnly(c.Spec, w.Error(), inner.Error()) {
+			r.Failf(sigF21, "kind %s: %q vs %q\nspec %s", n.K, w.Error(), inner.Error(), c.Spec)
+		} else if annotationOnly && w.Error() != inner.Error() {
 			r.Failf("an annotation-only wrapper changes Error()", "kind %s: %q vs %q\nspec %s", n.K, w.Error(), inner.Error(), c.Spec)
 		}
 		for _, rf := range refs {
